@@ -13,4 +13,5 @@ def run(ctx):
                        'C04_realised: the plan addresses no path twice (two targets sharing a root directory can violate this; such cases are generated and judged by the oracle + model comparison)']
     ctx.proof_phase(extra_targets=['Corr/Check_Deploy.vo'])
     ds.run_cli_stream(ctx, 14 if quick else 200, 4 if quick else 8, props={'C04'})
+    ds.run_cli_stream(ctx, 8 if quick else 120, 4, props={'C04'}, stream='shared_root', script=ds.script_shared_root_filter, setup=ds.setup_shared_root)
     ds.run_lib_stream(ctx, 120 if quick else 2500, props={'C04'})
